@@ -66,6 +66,7 @@ def monitors (c : Spec.Ctx) (j : Journal) (fatalHere : Bool) : List String :=
   ((Spec.C19.scanBad c j fatalHere).map (fun t => "C19|" ++ t)) ++
   (if Spec.C01.holds c j then [] else ["C01|" ++ ";".intercalate (Spec.C01.bad c j)]) ++
   (if Spec.C03.holds c j then [] else ["C03"]) ++
+  (if Spec.C12.holds c j then [] else ["C12|" ++ ";".intercalate ((j.filter (fun e => !Spec.C12.okEntry c e)).map (fun e => (toJson e.call).compress))]) ++
   (if Spec.C08.holds c j then [] else ["C08"]) ++
   (if Spec.C04.holds c j then [] else ["C04"]) ++
   (if Spec.C09.holds c j then [] else ["C09"]) ++
